@@ -76,7 +76,7 @@ def make_fs(case, allow_fold=True):
     return dadi.Spectrum(data, mask=mask, mask_corners=False, pop_ids=case.get('pop_ids'))
 
 
-def fs_equal(a, b_data, b_mask, tol=1e-12, what='spectrum', rec=None, key=None):
+def fs_equal(a, b_data, b_mask, tol=1e-12, what='spectrum', rec=None, key=None, atol=1e-300):
     """Compare a Spectrum with reference (data, mask): masks identical, unmasked values close."""
     from harness.core import Violation, require_close
     am = np.ma.getmaskarray(a)
@@ -87,4 +87,4 @@ def fs_equal(a, b_data, b_mask, tol=1e-12, what='spectrum', rec=None, key=None):
         raise Violation('%s: mask differs at %s: got %s expected %s' % (what, tuple(int(i) for i in idx), bool(am[tuple(idx)]), bool(b_mask[tuple(idx)])))
     ok = ~b_mask
     if ok.any():
-        require_close(np.ma.getdata(a)[ok], b_data[ok], tol, what + ' values', rec, atol=1e-300, key=key or what)
+        require_close(np.ma.getdata(a)[ok], b_data[ok], tol, what + ' values', rec, atol=atol, key=key or what)
